@@ -48,6 +48,7 @@ ASSUMPTIONS = ["coordinates are dyadic rationals of magnitude < 200 (lattice poi
 N_VARIANTS = 4
 
 OBLIGATIONS = {
+    "reference_track_with_a_past": "mapOnTrack onto a track that had been projected on elsewhere and then moved in place",
     "decimal_coordinates": "the same segments, polylines and queries with decimal (not exactly representable) coordinates",
     "long_polyline": "a polyline of 17 or more vertices (serpentine, zigzag, hairpin, fan) was queried on the whole lattice around it",
     "vertical_segment": "a case whose carrying / only segment has x1 == x2",
@@ -274,6 +275,16 @@ def _mk_track(variant, pts):
     return Track([Obs(ENUCoords(x, y, 0.0), alpha.obstime(t0 + k)) for k, (x, y) in enumerate(pts)])
 
 
+def _moved_track(variant, pts):
+    """A reference track with a past: it stood 8 to the west and 4 to the north, was projected on once there, and was then
+    moved IN PLACE (Track.translate) to where it is now."""
+    t = _mk_track(variant, [(x - 8.0, y + 4.0) for (x, y) in pts])
+    guard(mapOnTrack, ENUCoords(pts[0][0] - 7.0, pts[0][1] + 5.0, 0.0), t)
+    guard(mapOnTrack, _mk_track(variant, [(pts[0][0] - 7.0, pts[0][1] + 5.0), (pts[-1][0] - 9.0, pts[-1][1] + 3.0)]), t)
+    t.translate(8.0, -4.0)
+    return t
+
+
 def check_polyline(variant, ptsl, ql, ctx, O=None):
     """proj_polyligne(X, Y, x, y) -> (distance, xproj, yproj, index)."""
     case = {"op": "polyline", "variant": variant, "pts": [list(p) for p in ptsl], "q": list(ql)}
@@ -295,7 +306,7 @@ def check_polyline(variant, ptsl, ql, ctx, O=None):
     _judge(site, site + "/vertical-segment/end-point-taken-instead-of-foot", O, q, (vals[0], vals[1], vals[2], i), ctx, case)
 
 
-def check_map_point(variant, ptsl, ql, ctx, O=None, track=None):
+def check_map_point(variant, ptsl, ql, ctx, O=None, track=None, past=None):
     """mapOnTrack(ENUCoords, track) -> (ENUCoords projected, distance, index)."""
     case = {"op": "map_point", "variant": variant, "pts": [list(p) for p in ptsl], "q": list(ql)}
     pts = [_P(variant, p) for p in ptsl]
@@ -303,6 +314,10 @@ def check_map_point(variant, ptsl, ql, ctx, O=None, track=None):
     O = O or oracle(pts, q)
     ctx.case(_cover(O, q, ctx, "mapOnTrack(coord)"))
     ctx.oblige("point_form")
+    if past:
+        case["past"] = past
+        ctx.oblige("reference_track_with_a_past")
+        track = track or _moved_track(variant, pts)
     track = track or _mk_track(variant, pts)
 
     def call():
@@ -367,7 +382,7 @@ def replay(case, ctx):
     elif op == "polyline":
         check_polyline(v, [tuple(p) for p in case["pts"]], tuple(case["q"]), ctx)
     elif op == "map_point":
-        check_map_point(v, [tuple(p) for p in case["pts"]], tuple(case["q"]), ctx)
+        check_map_point(v, [tuple(p) for p in case["pts"]], tuple(case["q"]), ctx, past=case.get("past"))
     elif op == "map_track":
         check_map_track(v, [tuple(p) for p in case["pts"]], [tuple(q) for q in case["qs"]], ctx)
 
@@ -506,6 +521,7 @@ def _run_polylines(shard, ctx):
             pts = [_P(v, p) for p in ptsl]
             track = _mk_track(v, pts)
             use = rows + (rows_half if shard["half"] and n <= 4 else [])
+            moved = _moved_track(v, pts) if n == 3 else None
             for row in use:
                 if not row:
                     continue
@@ -515,6 +531,8 @@ def _run_polylines(shard, ctx):
                     Os.append(O)
                     check_polyline(v, ptsl, q, ctx, O)
                     check_map_point(v, ptsl, q, ctx, O, track)
+                    if moved is not None:
+                        check_map_point(v, ptsl, q, ctx, O, moved, past="moved")
                 check_map_track(v, ptsl, row, ctx, Os, track)
             n_done += 1
             if n_done == 5:
